@@ -287,7 +287,52 @@ fn all_markers() -> Vec<MarkerSpec> {
     ]
 }
 
+/// all rules in one bucket region (same path, no scheme / host / ip / method trigger), differing only in their
+/// conditions of ONE family — date-time (date ranges, times of day, weekdays) or headers — drawn from the small
+/// pools, so that many rules share identical conditions: the grouping / memo logic of those two matchers
+pub fn focused_world(rng: &mut Rng) -> World {
+    let n = rng.range(3, 9);
+    let time_family = rng.coin();
+    let dates: Vec<_> = datetime_pool().into_iter().flatten().collect();
+    let times: Vec<_> = time_pool().into_iter().flatten().collect();
+    let days: Vec<_> = weekday_pool().into_iter().flatten().collect();
+    let conds = header_cond_pool();
+    let rules = (0..n)
+        .map(|i| {
+            let mut r = RuleSpec::simple(&format!("r{i:02}"), "/a");
+            r.rank = *rng.pick(&[0u16, 0, 1, 2, 5, 10]);
+            if time_family {
+                if rng.chance(2, 3) {
+                    r.datetime = Some(rng.pick(&dates).clone());
+                }
+                if rng.chance(1, 3) {
+                    r.time = Some(rng.pick(&times).clone());
+                }
+                if rng.chance(2, 3) {
+                    r.weekdays = Some(rng.pick(&days).clone());
+                }
+            } else {
+                for _ in 0..rng.range(1, 3) {
+                    let c = rng.pick(&conds).clone();
+                    if c.value.as_ref().map(|v| v.has_marker()).unwrap_or(false) {
+                        continue;
+                    }
+                    r.headers.push(c);
+                }
+            }
+            r
+        })
+        .collect();
+    World {
+        cfg: Cfg::random(rng),
+        rules,
+    }
+}
+
 pub fn random_world(rng: &mut Rng, max_rules: usize) -> World {
+    if max_rules >= 8 && rng.chance(1, 8) {
+        return focused_world(rng);
+    }
     let n = rng.range(1, max_rules);
     let rules = (0..n).map(|i| random_rule(rng, &format!("r{i:02}"))).collect();
     World {
